@@ -183,7 +183,7 @@ def check(run):
     quick = run.tier == "quick"
     r = random.Random(run.seed + 1400)
     cov = run.coverage
-    n = 240 if quick else 5000
+    n = 240 if quick else 20000
     hist = []
     for i in range(n):
         forced = {0: "broken-then-rebuild", 1: "comment-only", 2: "shifted-diagnostic", 3: "created-module", 4: "created-module-resaved"}.get(i % 6)
